@@ -2848,6 +2848,7 @@ func RegexpRemoveExtCommunities(path *Path, exps []*regexp.Regexp, subtypes []bg
 		match := false
 		// match only with transitive community. see RFC7153
 		if !isTransitiveType(comm) {
+			newComms = append(newComms, comm)
 			continue
 		}
 		for idx, exp := range exps {
